@@ -976,6 +976,44 @@ func ruleBijection(c *Ctx, rule string) {
 			}
 		}
 	}
+	// the test may be made by a predicate of the package (p.involutes(l)): a function whose result is the
+	// comparison of pair[pair[x]] with its parameter x
+	for _, b := range fn.Blocks {
+		for _, ins := range b.Instrs {
+			call, ok := ins.(*ssa.Call)
+			if !ok {
+				continue
+			}
+			h := call.Call.StaticCallee()
+			if h == nil || h.Pkg != fn.Pkg || len(h.Blocks) != 1 {
+				continue
+			}
+			ret, ok := h.Blocks[0].Instrs[len(h.Blocks[0].Instrs)-1].(*ssa.Return)
+			if !ok || len(ret.Results) != 1 {
+				continue
+			}
+			bo, ok := ret.Results[0].(*ssa.BinOp)
+			if !ok || (bo.Op != token.NEQ && bo.Op != token.EQL) {
+				continue
+			}
+			for _, side := range []ssa.Value{bo.X, bo.Y} {
+				if i1, ok := pairLoad(side); ok {
+					if i2, ok := pairLoad(stripConv(i1)); ok {
+						if hp, ok := stripConv(i2).(*ssa.Parameter); ok {
+							for pi, q := range h.Params {
+								if q == hp && pi < len(call.Call.Args) {
+									if p := origin(stripConv(call.Call.Args[pi]), 0); p != nil {
+										seen[p] = true
+										n++
+									}
+								}
+							}
+						}
+					}
+				}
+			}
+		}
+	}
 	for _, prm := range fn.Params {
 		key := "alphabet.NewPairing/involution-checked-for-" + prm.Name()
 		if seen[prm] {
@@ -1592,6 +1630,28 @@ func ruleNoSkip(c *Ctx, rule string, targets [][2]string) {
 			}
 		}
 		if readCall == nil {
+			// the read may sit in a helper of the reader that hands the line back (nextLine)
+			for _, b := range fn.Blocks {
+				for _, ins := range b.Instrs {
+					call, ok := ins.(*ssa.Call)
+					if !ok {
+						continue
+					}
+					h := call.Call.StaticCallee()
+					if h == nil || h.Pkg != fn.Pkg || h == fn || h.Blocks == nil || h.Signature.Results().Len() == 0 || !isByteSlice(h.Signature.Results().At(0).Type()) {
+						continue
+					}
+					for _, hb := range h.Blocks {
+						for _, hi := range hb.Instrs {
+							if hc, ok := hi.(*ssa.Call); ok && isBufioMethod(hc, "ReadBytes", "ReadString", "ReadSlice", "ReadLine") && readCall == nil {
+								readCall = call
+							}
+						}
+					}
+				}
+			}
+		}
+		if readCall == nil {
 			c.und(rule, funcName(fn)+"/read", fn.Pos(), "no line read found")
 			continue
 		}
@@ -1740,12 +1800,35 @@ func byteSliceLiteral(v ssa.Value) []byte {
 // lengths agrees with it only when all rows start at the same offset.
 func rulePadFromEnds(c *Ctx, rule string) {
 	fn := c.fn("seq/multi", "(*Multi).Flush")
+	reach := pkgReach(fn) // Flush and the private helpers it hands rows to
 	var coord func(v ssa.Value, d int) string
 	coord = func(v ssa.Value, d int) string {
 		if d > 6 {
 			return "?"
 		}
 		switch x := v.(type) {
+		case *ssa.Parameter:
+			// what the callers pass
+			res := ""
+			pi := paramIndex(x.Parent(), x)
+			for _, g := range reach {
+				for _, b := range g.Blocks {
+					for _, ins := range b.Instrs {
+						if ci, ok := ins.(ssa.CallInstruction); ok && ci.Common().StaticCallee() == x.Parent() && pi >= 0 && pi < len(ci.Common().Args) {
+							k := coord(ci.Common().Args[pi], d+1)
+							if res == "" {
+								res = k
+							} else if res != k {
+								return "?"
+							}
+						}
+					}
+				}
+			}
+			if res == "" {
+				return "?"
+			}
+			return res
 		case *ssa.Call:
 			name := ""
 			if x.Call.IsInvoke() {
@@ -1775,32 +1858,34 @@ func rulePadFromEnds(c *Ctx, rule string) {
 		return "?"
 	}
 	n := 0
-	for _, b := range fn.Blocks {
-		for _, ins := range b.Instrs {
-			call, ok := ins.(*ssa.Call)
-			if !ok {
-				continue
-			}
-			g := call.Call.StaticCallee()
-			if g == nil || g.Name() != "Repeat" || len(call.Call.Args) < 2 {
-				continue
-			}
-			n++
-			key := fmt.Sprintf("multi.(*Multi).Flush/pad-length#%d", n)
-			cnt := call.Call.Args[len(call.Call.Args)-1]
-			bo, ok := cnt.(*ssa.BinOp)
-			if !ok || bo.Op != token.SUB {
-				c.und(rule, key, call.Pos(), "the pad length is not a difference")
-				continue
-			}
-			l, r := coord(bo.X, 0), coord(bo.Y, 0)
-			switch {
-			case (l == "Start" && r == "Start") || (l == "End" && r == "End"):
-				c.ok(rule, key, call.Pos(), "pad length = difference of two "+l+"() coordinates")
-			case l == "Len" || r == "Len":
-				c.bad(rule, key, call.Pos(), "the pad length is computed from lengths ("+l+"() - "+r+"()) instead of the distance between the alignment's edge and the row's edge: rows that do not start where the alignment starts are over-padded by their offset, so the alignment grows and is still not flush")
-			default:
-				c.und(rule, key, call.Pos(), "cannot tell what the pad length is a difference of ("+l+", "+r+")")
+	for _, rf := range reach {
+		for _, b := range rf.Blocks {
+			for _, ins := range b.Instrs {
+				call, ok := ins.(*ssa.Call)
+				if !ok {
+					continue
+				}
+				g := call.Call.StaticCallee()
+				if g == nil || g.Name() != "Repeat" || len(call.Call.Args) < 2 {
+					continue
+				}
+				n++
+				key := fmt.Sprintf("multi.(*Multi).Flush/pad-length#%d", n)
+				cnt := call.Call.Args[len(call.Call.Args)-1]
+				bo, ok := cnt.(*ssa.BinOp)
+				if !ok || bo.Op != token.SUB {
+					c.und(rule, key, call.Pos(), "the pad length is not a difference")
+					continue
+				}
+				l, r := coord(bo.X, 0), coord(bo.Y, 0)
+				switch {
+				case (l == "Start" && r == "Start") || (l == "End" && r == "End"):
+					c.ok(rule, key, call.Pos(), "pad length = difference of two "+l+"() coordinates")
+				case l == "Len" || r == "Len":
+					c.bad(rule, key, call.Pos(), "the pad length is computed from lengths ("+l+"() - "+r+"()) instead of the distance between the alignment's edge and the row's edge: rows that do not start where the alignment starts are over-padded by their offset, so the alignment grows and is still not flush")
+				default:
+					c.und(rule, key, call.Pos(), "cannot tell what the pad length is a difference of ("+l+", "+r+")")
+				}
 			}
 		}
 	}
